@@ -6,6 +6,10 @@ package chw
 import (
 	"context"
 	"fmt"
+	"io"
+	"net"
+	"os"
+	"syscall"
 	"regexp"
 	"strings"
 	"sync"
@@ -45,6 +49,7 @@ type Block struct {
 	ColRows   []int
 	Rect      bool
 	EncodeErr string // what ch-go's own block encoder says about this input ("" = fine)
+	ErrText   string // error text the scripted failure returned
 	Rows      [][]any
 	Outcome   Outcome
 	CallT     int64
@@ -190,7 +195,8 @@ func (c *Client) Do(ctx context.Context, q ch.Query) error {
 		if blk.EncodeErr != "" {
 			err = fmt.Errorf("encode block: %s", blk.EncodeErr)
 		} else {
-			err = fmt.Errorf("code: 241, message: fake server error (scripted)")
+			err = scriptedErr(nth)
+			blk.ErrText = err.Error()
 		}
 	case Cancel:
 		err = context.Canceled
@@ -201,6 +207,33 @@ func (c *Client) Do(ctx context.Context, q ch.Query) error {
 	atomic.AddInt32(&l.inFlight, -1)
 	l.LastDoRet.Store(time.Now().UnixNano())
 	return err
+}
+
+// scriptedErr varies what a failed INSERT looks like: server exceptions, and the network errors a dying
+// connection produces (as values that errors.Is/As can see through). The HTTP answer for a push whose
+// rows were in failed INSERTs only must not depend on the text or type of the failure.
+func scriptedErr(nth int) error {
+	addr := &net.TCPAddr{IP: net.IPv4(127, 0, 0, 1), Port: 9000}
+	src := &net.TCPAddr{IP: net.IPv4(127, 0, 0, 1), Port: 40000 + nth%1000}
+	switch nth % 9 {
+	case 0:
+		return fmt.Errorf("code: 241, message: Memory limit (total) exceeded: would use 9.32 GiB (scripted)")
+	case 1:
+		return &net.OpError{Op: "read", Net: "tcp", Source: src, Addr: addr, Err: os.NewSyscallError("read", syscall.ECONNRESET)}
+	case 2:
+		return &net.OpError{Op: "write", Net: "tcp", Source: src, Addr: addr, Err: os.NewSyscallError("write", syscall.EPIPE)}
+	case 3:
+		return io.EOF
+	case 4:
+		return io.ErrUnexpectedEOF
+	case 5:
+		return fmt.Errorf("handle packet: %w", context.DeadlineExceeded)
+	case 6:
+		return syscall.ECONNRESET // "connection reset by peer", bare
+	case 7:
+		return fmt.Errorf("dial tcp: lookup clickhouse on 10.0.0.2:53: read udp 10.0.0.1:5353->10.0.0.2:53: i/o timeout")
+	}
+	return fmt.Errorf("code: 252, message: Too many parts (300). Merges are processing significantly slower than inserts (scripted)")
 }
 
 func (c *Client) Ping(ctx context.Context) error {
